@@ -265,7 +265,7 @@ def gen_C16(tier, seed):
         hay = g.hay(pats, 12)
         reqs.append(fmt_req("recipe", {"mk": mk, "pats": hxlist(pats), "hay": hx(hay),
                                        "cfgs": cfgs(["nc.d.1.0.b", "c.d.1.0.b", "c.0.0.0.b", "dfa.d.1.0.u", "dfa.d.0.0.b"])}))
-    return {"reqs": reqs, "certs": certs, "first": False, "gen": g, "contract": True}
+    return {"reqs": reqs, "certs": certs, "first": False, "gen": g, "contract": True, "l1c": True}
 
 
 STREAM_CFGS = ["nc.d.1.0.b", "c.d.1.0.b", "c.0.0.0.b", "dfa.d.1.0.u", "dfa.d.0.0.b", "tnc.d.1.0.u", "tdfa.d.1.0.u",
@@ -365,22 +365,39 @@ def _stream_reqs(g, tier, op, faults=False):
     return reqs
 
 
+def _streamself_reqs(g, tier, repl):
+    """stream vs in-memory search of the same real searcher with a synthetic long pattern (the `min * factor`
+    branch of the capacity, rolls of tens of kilobytes); the model's answer is `same` by C07/C08"""
+    out = []
+    for big in ([9000, 70000] if tier == "quick" else [9000, 70000, 300000, 600000]):
+        for sched in ("4099", "1,65536,3,100000", "70001"):
+            parts = ["7878", "B", "78786e6565646c65", "B", "7171", "6e6565646c65", "B"]
+            g.rng.shuffle(parts)
+            k = {"mk": "std", "pats": "6e6565646c65,6565", "big": big, "parts": ",".join(parts), "sched": sched,
+                 "cfgs": "nc.d.1.0.b;tc.d.1.0.u"}
+            if repl:
+                k["repl"] = "41,_,4243"
+            out.append(fmt_req("streamself", k))
+    return out
+
+
 def gen_C07(tier, seed):
     g = Gen(seed)
-    return {"reqs": _stream_reqs(g, tier, "stream"), "certs": [], "gen": g, "needs_consts": STREAM_OPS}
+    return {"reqs": _stream_reqs(g, tier, "stream") + _streamself_reqs(g, tier, False), "certs": [], "gen": g, "needs_consts": STREAM_OPS, "needs_cap": STREAM_OPS}
 
 
 def gen_C08(tier, seed):
     g = Gen(seed)
-    return {"reqs": _stream_reqs(g, tier, "streamrep") + _stream_reqs(g, tier, "streamrepwith"), "certs": [], "gen": g,
-            "needs_consts": STREAM_OPS}
+    return {"reqs": _stream_reqs(g, tier, "streamrep") + _stream_reqs(g, tier, "streamrepwith") +
+            _streamself_reqs(g, tier, True), "certs": [], "gen": g,
+            "needs_consts": STREAM_OPS, "needs_cap": STREAM_OPS}
 
 
 def gen_C18(tier, seed):
     g = Gen(seed)
     reqs = _stream_reqs(g, tier, "stream", faults=True) + _stream_reqs(g, tier, "streamrep", faults=True) + \
         _stream_reqs(g, tier, "streamrepwith", faults=True)
-    return {"reqs": reqs, "certs": [], "gen": g, "needs_consts": STREAM_OPS}
+    return {"reqs": reqs, "certs": [], "gen": g, "needs_consts": STREAM_OPS, "needs_cap": STREAM_OPS}
 
 
 UTF8_CHARS = ["a", "b", "é", "ß", "€", "中", "😀", "x"]
@@ -811,8 +828,17 @@ def gen_C19(tier, seed):
     reqs = []
 
     def families():
-        k = g.rng.choice(["akb", "akb_only", "sufchain", "casey", "nest", "tiny", "pre"])
+        k = g.rng.choice(["akb", "akb_only", "sufchain", "casey", "nest", "tiny", "pre", "rep_inherit"])
         g.note("cost:" + k)
+        if k == "rep_inherit":
+            # x c^K y plus the single byte c: every state x c^j is a match state only through the inherited
+            # suffix pattern c (work of anchored / resumed searches must not grow with K)
+            c = bytes([g.rng.choice(b"bc")]); K = g.rng.randint(2, 24)
+            ps = [b"x" + c * K + b"y", c]
+            if g.rng.random() < 0.3:
+                ps.append(c * 2)
+            g.rng.shuffle(ps)
+            return ps
         if k == "akb":
             return g.akb()
         if k == "akb_only":
@@ -834,6 +860,13 @@ def gen_C19(tier, seed):
         fold = g.rng.random() < 0.2
         for _ in range(2):
             r = g.rng.random()
+            if any(p[:1] == b"x" and len(p) > 3 and p[-1:] == b"y" for p in pats) and r < 0.7:
+                long = max(pats, key=len)
+                hay = g.rng.choice([b"", b"z"]) + long[:g.rng.randint(2, len(long))] + g.rng.choice([b"", b"z", b"x"])
+                s, e = (0, len(hay)) if hay[:1] == b"x" else (1, len(hay))
+                kv = {"api": "ovl", "mk": "std", "pats": hxlist(pats), "hay": hx(hay), "s": s, "e": e,
+                      "anch": 1, "n": 4 + len(hay), "cfgs": cfgs(cf)}
+                reqs.append(fmt_req("cost", kv))
             if r < 0.4:
                 # force the longest chains: a^n then a foreign byte, repeated
                 n = g.rng.randint(1, 30)
@@ -852,6 +885,14 @@ def gen_C19(tier, seed):
                 kv["earliest"] = 1
             kv["cfgs"] = cfgs(cf)
             reqs.append(fmt_req("cost", kv))
+            if g.rng.random() < 0.35:
+                # the stepwise overlapping search: counters of every call of one call sequence
+                ko = dict(kv); ko["api"] = "ovl"; ko.pop("earliest", None)
+                ko["mk"] = "std" if g.rng.random() < 0.9 else mk
+                if g.rng.random() < 0.4:
+                    ko["anch"] = 1
+                ko["n"] = 2 + min(40, (len(pats) + 1) * (len(hay) + 1))
+                reqs.append(fmt_req("cost", ko))
     allc = ["nc.d.1.0.b", "nc.0.1.0.b", "c.d.1.0.b", "c.0.0.0.b", "c.2.1.0.b", "c.9.0.0.b", "dfa.d.1.0.b", "dfa.d.0.0.u"]
     certs = _fixed_certs(["std", "lf", "ll"], CORPUS_LISTS + [[b"a" * 8 + b"b"], [b"aaab", b"aab", b"ab", b"b"]], cfgl=allc)
     certs += _certs(g, qn(q, 40, 500), ["std", "lf", "ll"], fold=0.25,
@@ -1067,6 +1108,24 @@ def custom_C17(run, chk):
         hays = [pre_hay(g, pats) if g.rng.random() < 0.5 else g.hay(pats, 20) for _ in range(g.rng.randint(2, 5))]
         kv = {"mk": mk, "pats": hxlist(pats), "hays": "|".join(hx(h) for h in hays), "threads": 8,
               "reps": (10 if q else 40), "seed": g.rng.randint(1, 10 ** 6), "cfgs": cfgs(cf)}
+        reqs.append(fmt_req("threads", kv))
+    # history-sensitive family: a probe haystack searched on the fresh searcher (first in the list), then match-dense
+    # haystacks (dozens of consecutive prefilter hits a few bytes apart) and a sparse one, then the probe again in the
+    # "after" phase.  Leftmost kinds with a packed-prefilter-eligible list and a pattern nested inside a longer one, so
+    # that earliest mode (third operation of each haystack) has two admissible answers and any adaptive per-searcher
+    # state that switches search strategy becomes visible as before != after.
+    for _ in range(qn(q, 12, 120)):
+        alpha = b"abcdefgh"
+        long = g.word(alpha, 4, 6)
+        others = [bytes([c]) + g.word(alpha, 1, 3) for c in g.rng.sample(list(b"qrstuvwxy"), g.rng.randint(2, 4))]
+        pats = [long, long[1:3]] + others
+        g.rng.shuffle(pats)
+        probe = b"zz" + long + b"zz"
+        dense = b"".join(g.rng.choice(others + [long[1:3]]) for _ in range(g.rng.randint(45, 90)))
+        sparse = b"z" * g.rng.randint(20, 40) + g.rng.choice(pats)
+        hays = [probe, dense, sparse, dense[: len(dense) // 2]]
+        kv = {"mk": g.rng.choice(["lf", "ll"]), "pats": hxlist(pats), "hays": "|".join(hx(h) for h in hays), "threads": 8,
+              "reps": (4 if q else 12), "seed": g.rng.randint(1, 10 ** 6), "cfgs": cfgs(["auto.d.1.1.u", "nc.d.1.1.b", "tdfa.d.1.1.u"])}
         reqs.append(fmt_req("threads", kv))
     impl, model, mism = vlib.diff(reqs, "C17")
     run.cov.update({"evaluations": len(impl), "requests": len(reqs),
